@@ -463,14 +463,18 @@ func (p *Parser) parseSelectWithUnionWithParsedWith(pos token.Position, with []a
 		// Handle UNION after INTERSECT/EXCEPT
 		for p.currentIs(token.UNION) {
 			p.nextToken()
-			mode := "ALL"
+			// Record the mode exactly as parseSelectWithUnion does ("UNION ALL", "UNION DISTINCT",
+			// "UNION " for a bare UNION) so that a query renders the same with and without a leading WITH
+			var mode string
 			if p.currentIs(token.ALL) {
+				query.UnionAll = true
+				mode = "ALL"
 				p.nextToken()
 			} else if p.currentIs(token.DISTINCT) {
 				mode = "DISTINCT"
 				p.nextToken()
 			}
-			query.UnionModes = append(query.UnionModes, mode)
+			query.UnionModes = append(query.UnionModes, "UNION "+mode)
 
 			var nextStmt ast.Statement
 			if p.currentIs(token.LPAREN) {
@@ -528,15 +532,18 @@ func (p *Parser) parseSelectWithUnionWithParsedWith(pos token.Position, with []a
 	// Handle UNION
 	for p.currentIs(token.UNION) {
 		p.nextToken()
-		mode := "ALL"
+		// Record the mode exactly as parseSelectWithUnion does ("UNION ALL", "UNION DISTINCT",
+		// "UNION " for a bare UNION) so that a query renders the same with and without a leading WITH
+		var mode string
 		if p.currentIs(token.ALL) {
+			query.UnionAll = true
 			mode = "ALL"
 			p.nextToken()
 		} else if p.currentIs(token.DISTINCT) {
 			mode = "DISTINCT"
 			p.nextToken()
 		}
-		query.UnionModes = append(query.UnionModes, mode)
+		query.UnionModes = append(query.UnionModes, "UNION "+mode)
 
 		var nextStmt ast.Statement
 		if p.currentIs(token.LPAREN) {
